@@ -208,6 +208,11 @@ static int parse_ifdef_expression(
   oper.precedence = precedence;
   n = *num;
 
+  // A call entered with state 0 starts an expression (top level or just
+  // after a '('); calls entered with state 1 only handle a higher
+  // precedence level of the caller's expression.
+  const bool owns_paren = (state == 0);
+
   while (true)
   {
     token_type = tokens_get(asm_context, token, TOKENLEN);
@@ -361,6 +366,9 @@ printf("debug> #if: parse_defined()=%d\n", n);
       }
 
       *num = n;
+
+      // The ')' belongs to the call that consumed the '('.
+      if (!owns_paren) { tokens_push(asm_context, token, token_type); }
 
       return 0;
     }
